@@ -63,6 +63,7 @@ func (c Case) effDelay() uint32 {
 
 func runCase(c Case, idx int) (fs []finding, incon string, obs map[string]int, rerr error) {
 	obs = map[string]int{}
+	caseStart := time.Now()
 	add := func(sig, what string) { fs = append(fs, finding{sig, what}) }
 	b, err := broker.Start(broker.Options{Hooks: server.Hooks{OnMsgArrived: func(ctx context.Context, cl server.Client, req *server.MsgArrivedRequest) error {
 		if req.Message != nil && strings.HasPrefix(req.Message.Topic, "busy/") {
@@ -267,6 +268,19 @@ func runCase(c Case, idx int) (fs []finding, incon string, obs map[string]int, r
 					hits = append(hits, r)
 				}
 			}
+		}
+	}
+	// "too late" / "never" verdicts need a machine that runs timers on time: if the harness' own 5 ms sleeps
+	// overshot by more than 150 ms during this case, lateness proves nothing
+	if j := monitor.Jitter(caseStart); j > 150*time.Millisecond && expect >= 0 {
+		late := len(hits) == 0
+		for _, h := range hits {
+			if h.T-tEnd > expect+margin {
+				late = true
+			}
+		}
+		if late {
+			return nil, fmt.Sprintf("timers of the harness were up to %v late during the case: lateness cannot be judged", j), obs, nil
 		}
 	}
 	kind := fmt.Sprintf("end=%s:reattach=%s:v=%d", c.End, c.Reattach, c.V)
